@@ -1,16 +1,72 @@
 package codec
 
 import (
+	"fmt"
 	"math/big"
+	"strings"
 	"testing"
+
+	"golang.org/x/text/unicode/norm"
 
 	"github.com/onflow/cadence"
 	"github.com/onflow/cadence/common"
 
+	"verif/lib/evid"
 	"verif/lib/host"
+	"verif/lib/vgen"
 )
 
 func bigFromString(s string) (*big.Int, bool) { return new(big.Int).SetString(s, 10) }
+
+// nfcValue returns v with every string and character in NFC (the form Cadence
+// stores); dictionary entries whose keys coincide after normalisation are merged
+// (the later entry wins, as on import).
+func nfcValue(v cadence.Value) cadence.Value {
+	switch x := v.(type) {
+	case cadence.String:
+		return cadence.String(norm.NFC.String(string(x)))
+	case cadence.Character:
+		return cadence.Character(norm.NFC.String(string(x)))
+	case cadence.Optional:
+		if x.Value == nil {
+			return x
+		}
+		// Cadence has no Some(nil): importing it yields nil
+		inner := nfcValue(x.Value)
+		if o, ok := inner.(cadence.Optional); ok && o.Value == nil {
+			return o
+		}
+		return cadence.NewOptional(inner)
+	case cadence.Array:
+		vs := make([]cadence.Value, len(x.Values))
+		for i, e := range x.Values {
+			vs[i] = nfcValue(e)
+		}
+		return cadence.Array{ArrayType: x.ArrayType, Values: vs}
+	case cadence.Dictionary:
+		var ps []cadence.KeyValuePair
+		idx := map[string]int{}
+		for _, p := range x.Pairs {
+			k := nfcValue(p.Key)
+			ks := vgen.KeyString(k)
+			if i, dup := idx[ks]; dup {
+				ps[i].Value = nfcValue(p.Value)
+				continue
+			}
+			idx[ks] = len(ps)
+			ps = append(ps, cadence.KeyValuePair{Key: k, Value: nfcValue(p.Value)})
+		}
+		return cadence.Dictionary{DictionaryType: x.DictionaryType, Pairs: ps}
+	case cadence.Struct:
+		fs := vgen.FieldValues(x)
+		vs := make([]cadence.Value, len(fs))
+		for i, f := range fs {
+			vs[i] = nfcValue(f)
+		}
+		return cadence.NewStruct(vs).WithType(x.StructType)
+	}
+	return v
+}
 
 func cadenceAddress(a common.Address) cadence.Address { return cadence.Address(a) }
 
@@ -199,4 +255,75 @@ func buildSnapshotLedger(t *testing.T) *host.Host {
 		t.Fatalf("snapshot transaction on account 3 (VM) failed: %v %v", r.Err, r.Panic)
 	}
 	return h
+}
+
+// c44LedgerRoundTrip stores a generated container/composite value through a
+// transaction (one engine), commits, checks the ledger's health, reads the value
+// back in a separate execution (other engine: a fresh runtime.Storage decodes the
+// registers) and compares it with what was stored.
+func c44LedgerRoundTrip(rec *evid.Rec, base *host.Host, g *vgen.G) string {
+	var pt *vgen.PType
+	for {
+		pt = g.ParamType(2)
+		// (capabilities are not importable as arguments, ranges are not storable)
+		if !strings.Contains(pt.Syntax(), "Capability") && !strings.Contains(pt.Syntax(), "InclusiveRange") {
+			break
+		}
+	}
+	v := g.ArgValue(pt, 3)
+	if s := vgen.Conforms(v, pt); s != "" {
+		return "harness error: generated value does not conform: " + s
+	}
+	writer, reader := host.Interp, host.VM
+	if g.S.Intn(2) == 0 {
+		writer, reader = host.VM, host.Interp
+	}
+	h := base.Fork()
+	tx := fmt.Sprintf(`import C from 0x1
+transaction(x: %s) { prepare(a: auth(Storage) &Account) { a.storage.save([x], to: /storage/v) } }`, pt.Syntax())
+	res := h.Tx(tx, host.Args(v), []common.Address{host.Addr(1)}, host.Options{Engine: writer})
+	in := vgen.Inspect(v)
+	rec.Case(in.Depth >= 2, "ledger", pt.Syntax(), vgen.Show(v))
+	rec.Class("ledger/" + pt.K)
+	if res.Err != nil || res.Panic != nil {
+		if ok, _ := argumentRejected(res.Err); ok {
+			rec.Class("ledger/argument-rejected")
+			return ""
+		}
+		if res.Err != nil && in.Kinds["InclusiveRange"] && strings.Contains(res.Err.Error(), "non-storable") {
+			rec.Class("ledger/non-storable-range-below-AnyStruct")
+			return ""
+		}
+		return fmt.Sprintf("saving %s failed: %v %v", vgen.Show(v), res.Err, res.Panic)
+	}
+	if _, err := host.Health(h.Ledger, false); err != nil {
+		return fmt.Sprintf("ledger unhealthy after saving %s: %v", vgen.Show(v), err)
+	}
+	script := fmt.Sprintf(`import C from 0x1
+access(all) fun main(): AnyStruct {
+    return getAuthAccount<auth(Storage) &Account>(0x1).storage.copy<[%s]>(from: /storage/v)
+}`, pt.Syntax())
+	out := h.Script(script, nil, host.Options{Engine: reader})
+	if out.Err != nil || out.Panic != nil {
+		return fmt.Sprintf("loading %s back failed: %v %v", vgen.Show(v), out.Err, out.Panic)
+	}
+	// the value travels inside a one-element array (a top-level nil would not be stored at all)
+	var got cadence.Optional
+	if o, ok := out.Value.(cadence.Optional); ok {
+		if arr, ok := o.Value.(cadence.Array); ok && len(arr.Values) == 1 {
+			got = cadence.NewOptional(arr.Values[0])
+		}
+	}
+	if got.Value == nil {
+		return fmt.Sprintf("stored value of type %s not found: %s", pt.Syntax(), vgen.Show(out.Value))
+	}
+	v = nfcValue(v) // strings are stored in NFC
+	if s := vgen.Conforms(got.Value, pt); s != "" && !strings.Contains(s, "has no case") {
+		return fmt.Sprintf("value read back does not conform to %s: %s", pt.Syntax(), s)
+	}
+	if s := vgen.Diff(v, nfcValue(got.Value), vgen.Eq{UnorderedDicts: true, IgnoreValueTypes: true}); s != "" {
+		return fmt.Sprintf("value read back differs from the stored one: %s\nstored: %s\n  read: %s", s, vgen.Show(v), vgen.Show(got.Value))
+	}
+	rec.Class("ledger/compared")
+	return ""
 }
